@@ -193,14 +193,17 @@ def _join_case(args):
     try:
         paths = []
         evs = []
-        for j, (tkey, missing, n) in enumerate(spec):
+        for j, sp in enumerate(spec):
+            tkey, missing, n = sp[:3]
+            # optional fourth entry: the run index of this input
+            ridx = sp[3] if len(sp) > 3 else 1
             feats = [f for f in FEATS if f not in missing]
             ev = gen.make_events(n, seed=seed + 10 * j, special=False,
                                  feats=feats)
             date, tm = TIMES[tkey]
             # the given order is the reverse of the path order
             p = d / f"in{9 - j}_{'zyxwv'[j]}.rtdc"
-            mj = gen.complete_meta(n, date=date, time=tm, run_index=1,
+            mj = gen.complete_meta(n, date=date, time=tm, run_index=ridx,
                                    run_id=f"vf-run-{j}")
             mj["imaging"]["frame rate"] = fps_of(j)
             if "time" in ev and "frame" in ev:
@@ -368,6 +371,14 @@ def join_specs(ctx):
         for ms in itertools.product(fam, repeat=3):
             specs.append([(perm[0], ms[0], 2), (perm[1], ms[1], 2),
                           (perm[2], ms[2], 3)])
+    # ties (same date and time) between inputs whose run indices grow in the
+    # given order and have different numbers of digits: given order and
+    # run-index order agree, so the expected order is unambiguous
+    for ris in ((9, 10, 11), (2, 10), (99, 100), (1, 2, 3), (8, 9, 10, 11)):
+        specs.append([("t0", (), 2 + (i % 2), ri)
+                      for i, ri in enumerate(ris)])
+        specs.append([("t1", (), 2, 7)] + [("t0", (), 2 + (i % 2), ri)
+                                           for i, ri in enumerate(ris)])
     if ctx.thorough:
         for k in (4, 5):
             for perm in itertools.permutations(tkeys[:k]):
@@ -461,6 +472,6 @@ def replay(case, ctx):
     if case["kind"] == "roundtrip":
         return _roundtrip_case((case["n"], case["size"], case["seed"],
                                 ctx.scratch, case.get("tiny_chunks", False)))
-    spec = [(s[0], tuple(s[1]), s[2]) for s in case["spec"]]
+    spec = [(s[0], tuple(s[1])) + tuple(s[2:]) for s in case["spec"]]
     return _join_case((spec, case["seed"], ctx.scratch,
                        case.get("tiny_chunks", False)))
